@@ -603,6 +603,57 @@ func (ed *errDisc) checkSite(c *ssa.Call) errSiteResult {
 				detail: fmt.Sprintf("a failure of %s (tested at %s) can reach %s which %s", site, ed.p.Pos(ck.iff.Cond.Pos()), ed.p.Pos(bad.Pos()), what)}
 		}
 	}
+	// Rule C: the error must be consumed (tested, returned, sent, stored, logged, passed on) before the same
+	// call can execute again. `for ... { err = put(...) }; if err != nil` checks only the last iteration's write.
+	if !escapes {
+		consumed := func(ins ssa.Instruction) bool {
+			switch x := ins.(type) {
+			case *ssa.If:
+				if v, _, ok := nilCompare(x.Cond); ok && al.vals[v] {
+					return true
+				}
+				if _, _, ok := ed.sentinelTest(x.Cond, al); ok {
+					return true
+				}
+			case *ssa.Return:
+				for _, r := range x.Results {
+					if al.vals[r] || ed.derivesFromAlias(r, al) {
+						return true
+					}
+				}
+			case *ssa.Send:
+				return ed.derivesFromAlias(x.X, al)
+			case *ssa.Store:
+				if al.vals[x.Val] {
+					switch x.Addr.(type) {
+					case *ssa.Alloc, *ssa.FreeVar:
+						return false
+					}
+					return true
+				}
+			case *ssa.Panic:
+				return true
+			case *ssa.Call:
+				for _, a := range x.Call.Args {
+					if al.vals[a] {
+						return true
+					}
+				}
+			case *ssa.Defer:
+				for _, a := range x.Call.Args {
+					if al.vals[a] {
+						return true
+					}
+				}
+			}
+			return false
+		}
+		q := &PathQuery{Fn: fn, Barrier: consumed, Target: func(ins ssa.Instruction, _ *ssa.BasicBlock) bool { return ins == ssa.Instruction(c) }}
+		if hits := q.From(c); len(hits) > 0 {
+			return errSiteResult{ok: false, kind: "overwritten", pos: c.Pos(),
+				detail: fmt.Sprintf("the error of %s can be overwritten by the next execution of the same call (next loop iteration) before it is tested: only the last iteration's write is checked", site)}
+		}
+	}
 	how := "tested"
 	if escapes && len(checks) == 0 {
 		how = "escapes"
